@@ -30,7 +30,7 @@ RULE = (
     "order hash); non-trivial = graph with >= 6 tasks executed under >= 3 distinct orders"
 )
 ASSUMPTIONS = ["fingerprints are blake2b over dtype, shape and C-contiguous bytes; views are legal (counted), only value changes count"]
-WEIGHTS = {"#window": 2.0, "#rechunk": 2.0, "#setitem": 3.0, "#scan": 2.0, "#reduction": 1.3, "#index": 1.3, "#linalg": 0.5}
+WEIGHTS = {"#window": 2.0, "#rechunk": 2.0, "#setitem": 3.0, "#whereout": 4.0, "#scan": 2.0, "#reduction": 1.3, "#index": 1.3, "#linalg": 0.5}
 
 
 def outputs_of(keys, run):
